@@ -1,14 +1,15 @@
 #!/bin/bash
 # usage: matrix.sh [budget_s]  -- run every check against every seeded change; print a matrix (X = alarm, . = quiet, ? = exit 2)
 B=${1:-6}
+V=$(cd "$(dirname "$0")/.." && pwd)
 CHECKS="C01 C03 C04 C05 C06 C07 C08 C09 C10 C11 C12 C18 C19 C20"
 printf "%-40s" "seed \\ check"; for c in $CHECKS; do printf "%4s" $c; done; echo
-for d in /verif/seeded/*/; do
+for d in $V/seeded/*/; do
   n=$(basename $d); [ -f $d/patch.diff ] || continue
   W=/tmp/wt-matrix-$$; git -C /repo worktree add -q --detach $W HEAD; (cd $W && git apply $d/patch.diff)
   printf "%-40s" $n
   for c in $CHECKS; do
-    out=$(VERIF_REPO=$W VERIF_BUDGET_S=$B VERIF_REPLAY_DIR=/tmp/matrix-replays /verif/bin/vcheck $c 2>&1); rc=$?
+    out=$(VERIF_REPO=$W VERIF_BUDGET_S=$B VERIF_REPLAY_DIR=/tmp/matrix-replays $V/bin/vcheck $c 2>&1); rc=$?
     case $rc in 0) printf "%4s" ".";; 1) printf "%4s" "X"; echo "$n $c $(echo "$out" | grep -E '^violation class' | head -1)" >> /tmp/matrix-detail.txt;; *) printf "%4s" "?";; esac
   done; echo
   git -C /repo worktree remove --force $W
